@@ -1,4 +1,4 @@
-From YV Require Export Crdt.ElemRHT Corr.Common.
+From YV Require Export Crdt.ElemRHT Crdt.RHT Corr.Common.
 
 Inductive eop :=
 | ESet (k : N) (id : ticket) (val : Z) (t : ticket)
@@ -36,7 +36,8 @@ Definition node_obs_ok (h : erht) (o : ticket * option ticket) : bool :=
 
 Inductive erhtcase :=
 | KErht (ops : list (eop * (bool * list (N * Z)))) (obs_nodes : list (ticket * option ticket))
-| KCounter (is_long : bool) (start : Z) (deltas : list Z) (obs : Z).
+| KCounter (is_long : bool) (start : Z) (deltas : list Z) (obs : Z)
+| KRht (ops : list (aop * list (N * Z))).   (* each op with the live attributes (ascending key) observed after it *)
 
 Definition erhtcheck (c : erhtcase) : bool :=
   match c with
@@ -45,4 +46,14 @@ Definition erhtcheck (c : erhtcase) : bool :=
       ok && forallb (node_obs_ok h) onodes && Nat.eqb (length (nodes h)) (length onodes)
   | KCounter is_long start deltas obs =>
       Z.eqb (fold_left (counter_increase is_long) deltas start) obs
+  | KRht ops =>
+      (fix go (h : rht) (l : list (aop * list (N * Z))) : bool :=
+         match l with
+         | [] => true
+         | (o, obs) :: r =>
+             let h' := rht_apply h o in
+             let live := rht_elements h' in
+             (* compare as sets of (key, value): both sides have one entry per key *)
+             forallb (fun kv => existsb (kv_eqb kv) obs) live && forallb (fun kv => existsb (kv_eqb kv) live) obs && go h' r
+         end) [] ops
   end.
